@@ -304,6 +304,12 @@ func (l c06BoundaryLog) judge(r *mc.Report) {
 
 func runC06(r *mc.Report, e *Env) {
 	r.Rule = "(a) BFS over put histories (see C05) with the radius clauses evaluated after every put on a scan of the database; (b) full product of a boundary lattice of radii x distances x 3 node ids through the in-range test and the Store RPC; distinct = distinct canonical store states / (verdict, radius bits, distance bits)"
+	if freeRuns > 0 { // race-detector pass: only the concurrent scenarios, in this process
+		for t := 0; t < c06bTasks(); t += c06bShards {
+			runC06b(r, e, t)
+		}
+		return
+	}
 	nb := len(c05Tasks(e.Thorough()))
 	if e.Of <= 1 || e.Shard < nb {
 		c05BFS(r, e, nil, r)
